@@ -137,7 +137,12 @@ func c11Generate(g *sip.Gen, small bool) (msgs []c11Abstract, stream []byte, sig
 			g.R.Read(m.body)
 		}
 		clName := []string{"Content-Length", "l", "content-length", "L"}[g.R.Intn(4)]
-		m.headers = append(m.headers, sip.Header{Name: clName, Value: fmt.Sprint(len(m.body))})
+		clValue := fmt.Sprint(len(m.body))
+		if g.R.Intn(6) == 0 {
+			// zero-padded, as stacks with fixed-width fields write it (1*DIGIT, still decimal)
+			clValue = fmt.Sprintf("%0*d", len(clValue)+1+g.R.Intn(3), len(m.body))
+		}
+		m.headers = append(m.headers, sip.Header{Name: clName, Value: clValue})
 		if g.R.Intn(2) == 0 && len(m.headers) > 1 {
 			// Content-Length anywhere among the headers
 			j := g.R.Intn(len(m.headers))
